@@ -269,6 +269,9 @@ type StepObs struct {
 	Dels     []int       `json:"dels,omitempty"` // delete-where: tokens the predicate is true of
 	Branches []BranchObs `json:"branches"`
 	Commits  []CommitObs `json:"commits"`
+	// cold probe (C13): what a freshly opened handle returned right after the operation
+	ColdCommits  []CommitObs `json:"cold_commits,omitempty"`
+	ColdBranches []BranchObs `json:"cold_branches,omitempty"`
 }
 
 // ErrClass maps a real error to the model's error enum.
